@@ -1,4 +1,5 @@
 import Pycoin.Proofs.MsgSig
+import Pycoin.Proofs.MsgArmourRt
 import Pycoin.Proofs.TxWire
 import Pycoin.Gen.Networks
 /-!
@@ -314,5 +315,44 @@ theorem C17_verify_unique_hash160 (env : Env) (sig msg : Str) (t t' : String) (h
             · exact Or.inr h2
             · exact absurd ⟨h1, h2⟩ ht
 
+
+/-! ## armoured text -/
+
+/-- the property's hypotheses on a message for the armoured form: one newline style and no armour marker line.
+`lf`: no line (split at `\n`) ends with `\r` — so the message contains no `\r\n` and does not end with `\r` —
+and no line matches `-----BEGIN [A-Z ]*SIGNATURE-----`.
+`crlf`: the message is `\r\n`.join of at least two lines without `\n`, none a marker line, the last not ending with `\r`. -/
+inductive ArmourMsg : Str → Prop
+  | lf (msg : Str) (hcr : ∀ l ∈ splitLines msg, endsWithCR l = false) (hmk : ∀ l ∈ splitLines msg, isSigMarker l = false) :
+      ArmourMsg msg
+  | crlf (ms : List Str) (h2 : 2 ≤ ms.length) (hnl : ∀ l ∈ ms, '\n' ∉ l) (hmk : ∀ l ∈ ms, isSigMarker l = false)
+      (hlast : ∀ l, ms.getLast? = some l → endsWithCR l = false) : ArmourMsg (joinWith ['\r', '\n'] ms)
+
+/-- **C17 armour clause.**  For a network name without newline, an address and a signature over the Base58 / Bech32 /
+Base64 alphabets (non-empty, different from each other) and a message the property allows, the text produced from
+`signature_template` parses back, through `parse_sections` and `parse_signed_message`, to exactly
+`(message, address, signature)`. -/
+theorem C17_armour_rt (name msg addr sig : Str) (hn : '\n' ∉ name) (ha : FieldOK addr) (hs : FieldOK sig)
+    (hne : addr ≠ sig) (hm : ArmourMsg msg) :
+    ∃ text, armour name msg addr sig = .ok text ∧ parseSignedMessage text = .ok (msg, addr, sig) := by
+  refine ⟨armourText name msg addr sig, armour_eq name msg addr sig, ?_⟩
+  cases hm with
+  | lf _ hcr hmk =>
+    exact parseSigned_of_sections _ msg name addr sig hn ha hs hne (parseSections_armour_lf name msg addr sig hn ha hs hcr hmk)
+  | crlf ms h2 hnl hmk hlast =>
+    exact parseSigned_of_sections _ _ name addr sig hn ha hs hne (parseSections_armour_crlf name addr sig ms hn ha hs h2 hnl hmk hlast)
+
+/-- the upper-cased name of every shipped network is free of newlines (hypothesis `hn` of `C17_armour_rt`) and ASCII
+(so that `asciiUpper` is `str.upper`) -/
+theorem C17_network_names_ok :
+    Pycoin.Gen.Networks.all.all (fun net =>
+      !(net.networkName.toList.map asciiUpper).contains '\n' && net.networkName.toList.all (fun ch => ch.toNat < 128)) = true := by
+  decide +kernel
+
+-- the hypotheses are satisfiable: a two-line message in either style, a Base58 address, a Base64 signature
+example : ArmourMsg "hello\nworld".toList := .lf _ (by decide) (by decide)
+example : ArmourMsg "hello\r\nworld".toList := .crlf ["hello".toList, "world".toList] (by decide) (by decide) (by decide) (by decide)
+example : FieldOK "1BoatSLRHtKNngkdXEeobR76b53LETtpyT".toList := ⟨by decide, by decide⟩
+example : FieldOK "H2utKkquLbyEJamGwUfS9J0kKT4uuMTEr2WX2dPU9YImg4LeRpyjBelrqEqfM4QC8pJ+hVlQgZI5IPpLyRNxvK8=".toList := ⟨by decide, by decide⟩
 
 end Pycoin.MsgSigning
